@@ -79,16 +79,6 @@ Fixpoint strip_gt (l : bytes) : bytes :=
   match l with c :: l' => if c =? GTc then strip_gt l' else l | [] => [] end.
 Definition gfrom (l : bytes) : bool := is_prefix s_From (strip_gt l).
 
-(* lines of a byte string: each LF-terminated piece without its LF; a non-empty unterminated tail
-   is a line too *)
-Fixpoint split_lines_aux (cur : bytes) (s : bytes) : list bytes :=
-  match s with
-  | [] => match cur with [] => [] | _ => [rev cur] end
-  | c :: s' => if c =? LF then rev cur :: split_lines_aux [] s' else split_lines_aux (c :: cur) s'
-  end.
-Definition split_lines (s : bytes) : list bytes := split_lines_aux [] s.
-Definition join_lines (ls : list bytes) : bytes := concat (map (fun l => l ++ [LF]) ls).
-
 Definition quote_line (l : bytes) : bytes := if gfrom l then GTc :: l else l.
 (* what mailfile() appends: ufline, header lines, the message with >From quoting and a final
    newline added to an unterminated last line, then one blank line *)
@@ -116,9 +106,6 @@ Definition unquote_line (l : bytes) : bytes :=
 Definition mbox_read (file : bytes) : list (bytes * bytes) :=
   map (fun m => (fst m, join_lines (map unquote_line (strip_final_blank (snd m)))))
       (snd (grp (split_lines file))).
-
-(* the message as delivered: a final newline is added if missing *)
-Definition msg_plus (msg : bytes) : bytes := join_lines (split_lines msg).
 
 (* ---- mailfile() as events on one file ---- *)
 Inductive bev :=
